@@ -50,6 +50,19 @@ def make_cfg(seed, i):
     if fam == 4 and up.get("restarts.use_restarts"):
         # many restarts: reach rhoend quickly
         cfg["args"]["rhoend"] = float((cfg["args"].get("rhobeg") or 0.1) * 10.0 ** rng.uniform(-3, -1))
+    if i % 10 == 7:
+        # soft restarts that ADD points, with every point sampled more than once (evaluation counter and point counter differ),
+        # coarse rhoend so that several restarts fit into the budget: the Jacobian is then a regression fit through points some
+        # of which were appended by a restart
+        for k in list(up):
+            if k.startswith(("restarts.", "growing.", "regression.")):
+                up.pop(k)
+        cfg["args"].pop("npt", None)
+        up.update({"restarts.use_restarts": True, "restarts.increase_npt": True, "restarts.max_npt": int(n + 1 + rng.integers(1, n + 2)),
+                   "restarts.increase_npt_amt": int(rng.integers(1, 3)), "restarts.max_unsuccessful_restarts": 10})
+        cfg["nsamples"] = dict(kind="const", v=int(rng.integers(2, 4)))
+        cfg["args"]["rhoend"] = float((cfg["args"].get("rhobeg") or 0.1 * max(1.0, float(np.max(np.abs(cfg["x0"]))))) * 10.0 ** rng.uniform(-2.5, -1))
+        cfg["args"]["maxfun"] = int(gen.pick(rng, [80, 150]))
     up.pop("noise.quit_on_noise_level", None)
     up.pop("noise.additive_noise_level", None)
     up.pop("noise.multiplicative_noise_level", None)
